@@ -40,6 +40,28 @@ func c06rScript(name string, qt uint16) (fails bool, rcode int, data []string) {
 		return false, dns.RcodeSuccess, nil
 	case multi && qt == dns.TypeTXT:
 		return false, dns.RcodeSuccess, []string{"TXT c06"}
+	}
+	if qt == dns.TypeA || qt == dns.TypeAAAA {
+		a := "9.9.9.9"
+		if qt == dns.TypeAAAA {
+			a = "2001:db8::9"
+		}
+		switch {
+		case strings.HasSuffix(base, ".cdn"):
+			return false, dns.RcodeSuccess, []string{"CNAME edge1.cdn.net", a}
+		case strings.HasSuffix(base, ".cdn2"):
+			return false, dns.RcodeSuccess, []string{"CNAME edge1.cdn.net", "CNAME edge2.cdn.net", a}
+		case strings.HasSuffix(base, ".cdn3"):
+			return false, dns.RcodeSuccess, []string{"CNAME edge1.cdn.net", "CNAME edge2.cdn.net", "CNAME edge3.cdn.net", a}
+		case strings.HasSuffix(base, ".cnameonly"):
+			return false, dns.RcodeSuccess, []string{"CNAME edge1.cdn.net"}
+		case strings.HasSuffix(base, ".oddorder"):
+			return false, dns.RcodeSuccess, []string{a, "CNAME edge1.cdn.net"}
+		case strings.HasSuffix(base, ".otherfirst"):
+			return false, dns.RcodeSuccess, []string{"TXT c06", a}
+		}
+	}
+	switch {
 	case qt == dns.TypeA && multi:
 		return false, dns.RcodeSuccess, []string{"9.9.9.9", "9.9.9.10"}
 	case qt == dns.TypeA:
@@ -119,22 +141,24 @@ func c06rCacheMonitor(tbl []c06rEntry, name string, qt uint16, o, ref c06rObs, a
 	// the record chain starts at the queried name: a CNAME first is owned by
 	// the queried name and every other record by its target; without a CNAME
 	// every record is owned by the queried name
+	// (the upstream's answer may carry CNAME records of its own, round 8: a
+	// CNAME record moves the end of the chain to its target)
 	owner := name
 	rest := o.res.Answer
 	if len(rest) > 0 {
 		if cn, isC := rest[0].(*dns.CNAME); isC {
 			if !strings.EqualFold(c06rTrim(cn.Hdr.Name), name) {
-				return false, "cache-chain", fmt.Sprintf("the CNAME record is owned by %q, not by the queried name", cn.Hdr.Name)
+				return false, "cache-chain", fmt.Sprintf("the first CNAME record is owned by %q, not by the queried name", cn.Hdr.Name)
 			}
 			owner, rest = c06rTrim(cn.Target), rest[1:]
 		}
 	}
 	for _, rr := range rest {
-		if _, isC := rr.(*dns.CNAME); isC {
-			return false, "cache-chain", "a second CNAME record in the answer"
-		}
 		if !strings.EqualFold(c06rTrim(rr.Header().Name), owner) {
-			return false, "cache-chain", fmt.Sprintf("record owned by %q: the chain from the queried name ends at %q", rr.Header().Name, owner)
+			return false, "cache-chain", fmt.Sprintf("record owned by %q: the chain from the queried name is at %q", rr.Header().Name, owner)
+		}
+		if cn, isC := rr.(*dns.CNAME); isC {
+			owner = c06rTrim(cn.Target)
 		}
 	}
 	if ref.timeout || ref.res == nil {
@@ -153,12 +177,31 @@ func c06rCacheMonitor(tbl []c06rEntry, name string, qt uint16, o, ref c06rObs, a
 			return false, "cache-upstream", fmt.Sprintf("no upstream call for %v although the upstream has not answered that question before", ref.calls)
 		}
 	}
+	// a CNAME rewrite resolved upstream: the first record is the rewrite's
+	// CNAME, from the queried name to the name asked upstream, whatever the
+	// upstream's (or the cache's) answer starts with
+	if len(ref.calls) == 1 && !strings.EqualFold(c06rTrim(ref.calls[0].Name), name) && !ref.upsFailed {
+		asked := c06rTrim(ref.calls[0].Name)
+		cn, isC := (*dns.CNAME)(nil), false
+		if len(o.res.Answer) > 0 {
+			cn, isC = o.res.Answer[0].(*dns.CNAME)
+		}
+		if !isC || !strings.EqualFold(c06rTrim(cn.Hdr.Name), name) || !strings.EqualFold(c06rTrim(cn.Target), asked) {
+			return false, "cache-cname-first", fmt.Sprintf("the first record is not the CNAME from the queried name to %q, the name resolved upstream", asked)
+		}
+	}
 	// the addresses are those the scripted upstream gives for the final name
 	if len(ref.calls) == 1 {
 		fails, rc, data := c06rScript(ref.calls[0].Name, qt)
 		if !fails {
+			// the upstream's records: everything, or everything after the
+			// rewrite's CNAME
+			ups := o.res.Answer
+			if !strings.EqualFold(c06rTrim(ref.calls[0].Name), name) && len(ups) > 0 {
+				ups = ups[1:]
+			}
 			var got []string
-			for _, rr := range rest {
+			for _, rr := range ups {
 				got = append(got, c06rData(rr))
 			}
 			sort.Strings(got)
@@ -191,6 +234,8 @@ func c06rCacheStream(t *testing.T, out *vfOut, rnd *vfRand) {
 			extraQ: []string{"s.fail", "n.nodata", "u.down", "m.multi"}},
 		{label: "cache-pre-local-beside-upstream", entries: E("a.test", "1.1.1.1", "b.a.test", "a.test", "x.test", "AAAA", "*.x.test", "x.test")},
 		{label: "cache-pre-exception-forwarded", entries: E("a.test", "A", "b.a.test", "b.a.test", "*.a.test", "1.1.1.1", "x.test", "a.test")},
+		{label: "cache-pre-cname-shapes", entries: E("a.test", "e.cdn", "b.a.test", "e.cdn3", "x.test", "c.cnameonly", "*.x.test", "o.oddorder", "test", "t.otherfirst"),
+			extraQ: []string{"e.cdn", "e.cdn3", "c.cnameonly", "o.oddorder", "t.otherfirst"}},
 		{label: "cache-pre-case", entries: E("B.A.Test", "Z.Test", "x.test", "z.test"), extraQ: []string{"B.A.TEST", "Z.TEST", "z.Test"}},
 	}
 	for i, n := 0, out.Scale(100, 3000); i < n; i++ {
